@@ -106,9 +106,9 @@ class LunrIndexWriter:
             assert ob.parsed_docstring is not None
             try:
                 doc = ' '.join(node2stan.gettext(ob.parsed_docstring.to_node()))
-            except NotImplementedError:
+            except Exception:
                 # some ParsedDocstring subclass raises NotImplementedError on calling to_node()
-                # Like ParsedPlaintextDocstring.
+                # Like ParsedPlaintextDocstring. The conversion can also fail, index the raw text then.
                 doc = source.docstring
         return doc
 
